@@ -151,6 +151,8 @@ def alphabet(kind, tier="quick"):
         A(["get_atom_type", a])
         A(["bonded_to", a])
         A(["node_connected_component", a])
+        A(["neighbors_getitem", a])
+        A(["views_getitem", a])
     for (a, b) in [pairs[0], pairs[2], (0, ABSENT), (ABSENT, 8)]:
         A(["has_bond", a, b])
         A(["get_bond_attribute", a, b, "x"])
@@ -179,6 +181,7 @@ def alphabet(kind, tier="quick"):
 
 
 READ_ONLY = {
+    "neighbors_getitem", "views_getitem",
     "has_atom", "get_atom_attribute", "get_atom_attributes", "get_atom_type", "bonded_to", "node_connected_component",
     "has_bond", "get_bond_attribute", "get_bond_attributes", "connectivity_matrix", "connected_components", "eq_self",
     "eq_copy", "hash", "str", "copy", "_to_rdmol", "as_dict", "json_serialize", "copy_construct", "subgraph_all",
@@ -212,7 +215,8 @@ def classify(m, op):
     if name in READ_ONLY:
         shape = "any"
         if name in ("has_atom", "get_atom_attribute", "get_atom_attributes", "get_atom_type", "bonded_to",
-                    "node_connected_component", "get_atom_stereo", "get_atom_stereo_change"):
+                    "node_connected_component", "get_atom_stereo", "get_atom_stereo_change", "neighbors_getitem",
+                    "views_getitem"):
             shape = pa(args[0])
         elif name in ("has_bond", "get_bond_attribute", "get_bond_attributes"):
             shape = pb(args[0], args[1])
@@ -392,6 +396,23 @@ def apply_real(g, op):
         if len(args) > 1:
             return getattr(g, name)(args[0], rval(args[1]))
         return getattr(g, name)(args[0])
+    if name == "neighbors_getitem":
+        return set(g.neighbors[args[0]])
+    if name == "views_getitem":
+        # indexing / .get on every public mapping view with the given key
+        out = []
+        for v in ("atoms_with_attributes", "bonds_with_attributes", "neighbors", "atom_stereo", "bond_stereo", "stereo",
+                  "atom_stereo_changes", "bond_stereo_changes"):
+            if hasattr(g, v):
+                view = getattr(g, v)
+                for key in (args[0], frozenset((args[0], 0)), frozenset((args[0], 1))):
+                    try:
+                        out.append(repr(view.get(key)))
+                        out.append(key in view)
+                        out.append(repr(view[key]))
+                    except Exception as e:
+                        out.append(type(e).__name__)
+        return out
     if name == "eq_self":
         return g == g
     if name == "eq_copy":
